@@ -10,6 +10,48 @@ const NAMES: &[&str] = &[
 const FIELDS: &[&str] = &["x", "y", "sqrt", "floor", "profilebegin", "profileend", "m", "new", "len"];
 const MULTIBYTE: &[&str] = &["é", "€", "𝄞", "\u{feff}", "\u{a0}", "\u{2028}", "ß", "漢"];
 
+/// string contents, one or more per boundary class tested by the rules and the evaluator
+pub const CLASS_CONTENTS: &[&str] = &[
+    "abc", "_x", "x1", "end", "nil", "function", "é", "été", "ключ", "名前", "größe_2", "ß", "1a", "9", "",
+    " ", "  ", "\t", "12", " 12 ", "0x10", "-5", "- 5", "1e2", "1e400", ".5", "5.", "-", "+", "--", "0x", "1_0",
+    "a b", "a-b", "a.b", "Été", "_é", "é1", "١٢", "ⅷ", "true", "inf", "nan", "-0", "0b11", "\\n",
+];
+
+fn quoted(content: &str, style: usize) -> String {
+    match style % 4 {
+        0 => format!("'{}'", content),
+        1 => format!("\"{}\"", content),
+        2 if !content.contains('\\') => format!("[[{}]]", content),
+        3 if !content.contains('\\') => format!("[=[{}]=]", content),
+        _ => format!("'{}'", content),
+    }
+}
+
+/// one program per content: the literal in every operand / key / argument position
+pub fn class_program(content: &str, rotate: usize) -> String {
+    const TEMPLATES: &[&str] = &[
+        "local a1 = @ + 1", "local a2 = 1 - @", "local a3 = @ * @", "local a4 = @ / 2", "local a5 = @ // 2",
+        "local a6 = 7 % @", "local a7 = @ ^ 2", "local a8 = -@", "local a9 = #@", "local a10 = @ .. 1",
+        "local a11 = @ == 1", "local a12 = @ < 'a'", "local a13 = not @", "local a14 = @ and 1 or 2",
+        "local a15 = - - @", "local a16 = (@) + (@)", "local t = { [ @ ] = 1, @ }", "local v = t[ @ ]", "t[ @ ] = 2",
+        "t[ @ ]()", "f(@)", "f @", "obj:m(@)", "local n = (@):len()", "local s = `{@}`", "if @ then end",
+        "a17 += @", "local a18 = if @ then @ else 1", "local a19 = t[ @ ][ @ ]", "t[ @ ].x = t.x[ @ ]", "return @",
+    ];
+    let mut out = String::new();
+    for (i, template) in TEMPLATES.iter().enumerate() {
+        let mut k = 0;
+        for part in template.split('@') {
+            if k > 0 {
+                out.push_str(&quoted(content, rotate + i + k));
+            }
+            out.push_str(part);
+            k += 1;
+        }
+        out.push('\n');
+    }
+    out
+}
+
 pub struct Gen<'r> {
     pub rng: &'r mut Rng,
     out: String,
@@ -135,6 +177,8 @@ impl<'r> Gen<'r> {
             3 => self.call(depth),
             4 => {
                 let c = *self.rng.pick(&[
+                    "t['été'] = 1", "local r = t[\"clé\"]", "local e = '' + 1", "local u = -\"\"", "local w = '  ' * 2",
+                    "local k = t['end']", "local d = t['1a']", "local h = \"0x10\" + 0", "local g = #''",
                     "assert(x)", "debug.profilebegin('a')", "debug.profileend()", "print(math.sqrt(x))",
                     "local m = require('./m')", "obj:m(1)", "f'str'", "f{1}", "local z = t['key']",
                     "local q = a // b",
@@ -426,7 +470,24 @@ impl<'r> Gen<'r> {
         self.put(n);
     }
 
+    /// string literals whose CONTENT falls in one of the boundary classes the rules and the
+    /// evaluator test: identifier-shaped, keyword, non-ASCII letters only, digit-first, empty,
+    /// whitespace-only, numeric-looking (decimal, hex, signed, padded, exponent), lone sign
+    fn class_string(&mut self) {
+        let content = *self.rng.pick(CLASS_CONTENTS);
+        let literal = match self.rng.below(4) {
+            0 => format!("\"{}\"", content),
+            1 if !content.contains('\\') => format!("[[{}]]", content),
+            2 if !content.contains('\\') => format!("[=[{}]=]", content),
+            _ => format!("'{}'", content),
+        };
+        self.put(&literal);
+    }
+
     fn string(&mut self) {
+        if self.rng.chance(1, 2) {
+            return self.class_string();
+        }
         let s = *self.rng.pick(&[
             "'a'", "\"b\"", "''", "\"\"", "[[long]]", "[==[ ]] ]==]", "'é€'", "\"\\n\\t\\\\\"", "'\\65\\x41\\u{48}'",
             "\"\\z\n   x\"", "[[\nline]]", "'it\\'s'", "\"𝄞\"", "'\\u{10FFFF}'", "\"\\255\"", "'--not a comment'",
@@ -493,7 +554,7 @@ impl<'r> Gen<'r> {
             self.put(leaf);
             return;
         }
-        match self.rng.below(24) {
+        match self.rng.below(27) {
             0 => self.put("nil"),
             1 => self.put("true"),
             2 => self.put("false"),
@@ -520,7 +581,11 @@ impl<'r> Gen<'r> {
             14 => {
                 let op = *self.rng.pick(&["-", "not", "#"]);
                 self.put(op);
-                self.expr(depth + 1);
+                if self.rng.chance(1, 3) {
+                    self.class_string();
+                } else {
+                    self.expr(depth + 1);
+                }
             }
             15 => {
                 self.put("(");
@@ -559,6 +624,49 @@ impl<'r> Gen<'r> {
                 self.put("(");
                 self.call(depth + 1);
                 self.put(")");
+            }
+            23 | 24 => {
+                // a class string as operand of every arithmetic / comparison / concat operator
+                let op = *self.rng.pick(&["+", "-", "*", "/", "//", "%", "^", "..", "==", "<", "<=", "and", "or"]);
+                if self.rng.chance(1, 2) {
+                    self.class_string();
+                    self.put(op);
+                    if self.rng.chance(1, 2) { self.class_string() } else { self.expr(depth + 1) }
+                } else {
+                    self.expr(depth + 1);
+                    self.put(op);
+                    self.class_string();
+                }
+            }
+            25 => {
+                // class strings as index keys and table keys
+                match self.rng.below(3) {
+                    0 => {
+                        let name = self.name();
+                        self.put(name);
+                        self.put("[");
+                        self.class_string();
+                        self.put("]");
+                    }
+                    1 => {
+                        self.put("{");
+                        self.put("[");
+                        self.class_string();
+                        self.put("]");
+                        self.put("=");
+                        self.expr(depth + 1);
+                        self.put("}");
+                    }
+                    _ => {
+                        self.put("(");
+                        self.class_string();
+                        self.put(")");
+                        self.put(":");
+                        self.put("len");
+                        self.put("(");
+                        self.put(")");
+                    }
+                }
             }
             _ => {
                 let name = self.name();
